@@ -258,8 +258,9 @@ def segV (f : Nat) (r : Bytes) : Bytes :=
   if f / 2 % 2 = 1 then (t3 f r).getD 0 0 :: ((t3 f r).drop 1).take ((t3 f r).getD 0 0) else []
 def segE (f : Nat) (r : Bytes) : Bytes := if f % 2 = 1 then afExtBytes (extOf (t4 f r)) else []
 
-/-- shape of the bytes written for a decoded adaptation field -/
-theorem afBytes_afOf (L f : Nat) (r : Bytes) (hf : f < 256) (hr : IsBytes r) :
+/-- shape of the bytes written for a decoded adaptation field (the private data ended inside `r`, as it does whenever
+the parser succeeded: the writer derives the length byte from the data it holds) -/
+theorem afBytes_afOf (L f : Nat) (r : Bytes) (hf : f < 256) (hr : IsBytes r) (hk4 : k4 f r ≤ (t3 f r).length) :
     afBytes (afOf L f r) = calcAFLength (afOf L f r) :: f ::
       (segP f r ++ (segO f r ++ (segS f r ++ (segV f r ++ (segE f r ++ List.replicate (L - consumed f r) 0xff))))) := by
   have hb2 : (t2 f r).getD 0 0 < 256 := (((hr.drop _).drop _)).getD 0
@@ -287,18 +288,16 @@ theorem afBytes_afOf (L f : Nat) (r : Bytes) (hf : f < 256) (hr : IsBytes r) :
     · simp only [q, decide_true, if_true, lowBits8 _ hb2]
     · simp only [q, decide_false, if_false, Bool.false_eq_true]
   have eV : (if (afOf L f r).hasTransportPrivateData = true then
-      [lowBits (afOf L f r).transportPrivateDataLength 8]
-        ++ (if (afOf L f r).transportPrivateDataLength > 0 then (afOf L f r).transportPrivateData else [])
+      [lowBits (afOf L f r).transportPrivateData.length 8] ++ (afOf L f r).transportPrivateData
       else []) = segV f r := by
     unfold segV
+    unfold k4 at hk4
     simp only [afOf]
     by_cases q : f / 2 % 2 = 1
-    · simp only [q, decide_true, if_true, lowBits8 _ hb3, List.singleton_append, List.cons.injEq, true_and]
-      by_cases z : (((t3 f r).getD 0 0 : Nat) : Int) > 0
-      · rw [if_pos z]
-      · rw [if_neg z]
-        have : (t3 f r).getD 0 0 = 0 := by omega
-        rw [this, List.take_zero]
+    · simp only [q, if_true] at hk4
+      have hlen : (((t3 f r).drop 1).take ((t3 f r).getD 0 0)).length = (t3 f r).getD 0 0 := by
+        rw [List.length_take, List.length_drop]; omega
+      simp only [q, decide_true, if_true, hlen, lowBits8 _ hb3, List.singleton_append]
     · simp only [q, decide_false, if_false, Bool.false_eq_true]
   have eE : (if (afOf L f r).hasAdaptationExtensionField = true then
       afExtBytes ((afOf L f r).adaptationExtensionField.getD defaultExt) else []) = segE f r := by
@@ -460,7 +459,7 @@ theorem af_reencode (L f : Nat) (r tl : Bytes) (hL : L < 256) (hf : f < 256) (hr
       ↔ (L ≤ 183 ∧ afOK L f r = true ∧ tl = (t5 f r).drop (L - consumed f r)) := by
   obtain ⟨g1, g2, g3, g4, g5, g6⟩ := ranges f r hc
   have hsz := afSize_afOf L f r g4
-  rw [afBytes_afOf L f r hf hr]
+  rw [afBytes_afOf L f r hf hr g4]
   simp only [List.cons_append, List.cons.injEq, List.append_assoc]
   have hcalc : calcAFLength (afOf L f r) = (afSize (afOf L f r) % 256).toNat := rfl
   constructor
